@@ -353,11 +353,14 @@ func (bucket *Bucket) inTransaction(fn func(txn *sql.Tx) error) error {
 		if err != nil {
 			break
 		}
+		verifPoint("txn.begin", bucket.name)
 
 		err = fn(txn)
 
 		if err == nil {
+			verifPoint("txn.precommit", bucket.name)
 			err = txn.Commit()
+			verifPoint("txn.committed", bucket.name, err)
 		}
 
 		if err != nil {
